@@ -414,7 +414,22 @@ func checkC05On(c *Ctx, p *Prog, cfg string) {
 								return false
 							}
 							dc, ok := ex.Tuple.(*ssa.Call)
-							return ok && calleeName(dc) == "unicode/utf8.DecodeRune" && dc.Call.Args[0] == keysV
+							if !ok || calleeName(dc) != "unicode/utf8.DecodeRune" {
+								return false
+							}
+							// the decoded buffer is the read itself, possibly through the variable of a read-again loop (nil before the first read)
+							if dc.Call.Args[0] == keysV {
+								return true
+							}
+							same := false
+							for _, v := range mayValues(dc.Call.Args[0]) {
+								if v == keysV {
+									same = true
+								} else if !isNilConst(v) {
+									return false
+								}
+							}
+							return same
 						}
 						return true
 					}
